@@ -78,9 +78,23 @@ def scenario(rng, kind):
                 s.inject(s.peer.push_changes(s.client_parms(), [(pos, data)]))
                 s.loop.call_later(period, chat)
             s.loop.call_later(period, chat)
+        if kind == "down":
+            # the connection's transport is lost while calls are in progress or queued: every one of them still
+            # returns (its remaining attempts are silent), none waits for ever
+            proto = sc.spa._protocol
+            orig_lost = proto.connection_lost
+
+            def lost(exc):
+                orig_lost(exc)
+                from .. import vloop as _vl
+                sc.ev.append({"k": "down", "t": ms(s.loop.time()), "_n": next(_vl.SEQ)})
+            proto.connection_lost = lost
         if not kind.startswith("gate"):
             net.s2c = s2c
         n_calls = rng.choice([1, 2, 3, 5, 8]) if kind != "active-lossy" else 1
+        if kind == "down":
+            n_calls = rng.choice([2, 3, 5, 8])
+            s.loop.call_later(rng.choice([0.0, 0.12, 0.3]) * n_calls, sc.tr.close)
         live = consts()          # the table in force while the calls run
         if kind in ("gate", "gate-active"):
             # the spa stops answering: after 2 x ping frequency the freshness gate closes
@@ -93,6 +107,15 @@ def scenario(rng, kind):
                 s.quiesce()
             net.blackhole = True
             s.advance(GeckoConfig.PING_FREQUENCY_IN_SECONDS * 2 + (1.5 if kind == "gate-active" else 30))
+            if rng.random() < 0.6:
+                # ... and stays silent until the client has declared it not responding; the calls arrive shortly
+                # after that declaration (the gate stays closed: no ping has been answered since)
+                n0 = len(s.events)
+                t0 = s.loop.time()
+                while (not any(e["ev"] == "RUNNING_PING_NO_RESPONSE" for e in s.events[n0:])
+                       and s.loop.time() - t0 < 600):
+                    s.advance(0.5)
+                s.advance(rng.choice([0.05, 0.4, GeckoConfig.PING_FREQUENCY_IN_SECONDS * 0.9]))
             for i in range(n_calls):
                 name, api = rng.choice(sc.apis())
                 sc.start_call(api, gated=True)
@@ -145,7 +168,7 @@ def run(ctx):
     logs = []
     n = 24 if ctx.quick else 400
     for i in range(n):
-        kind = "gate" if i % 8 == 7 else "gate-active" if i % 8 == 3 else "chatter" if i % 8 == 5 else "stall" if i % 8 == 1 else "active-lossy" if i % 8 == 6 else "calls"
+        kind = "down" if i % 8 == 4 else "gate" if i % 8 == 7 else "gate-active" if i % 8 == 3 else "chatter" if i % 8 == 5 else "stall" if i % 8 == 1 else "active-lossy" if i % 8 == 6 else "calls"
         logs.append(scenario(rng, kind))
     # logs are validated against the configuration that was in force while they ran
     groups = {}
@@ -169,6 +192,20 @@ def run(ctx):
             e = lg["ev"][k] if k < len(lg["ev"]) else {"k": "end"}
             ctx.violation({"clause": clause_for(e), "event": e.get("k"), "scenario": lg["kind"]},
                           {"matched": k, "of": len(lg["ev"]), "event": e, "before": lg["ev"][max(0, k - 14):k]})
+    nd = 0
+    for lg in logs:
+        if lg["kind"] == "down":
+            active = set()
+            for e in lg["ev"]:
+                if e["k"] == "call":
+                    active.add(e["c"])
+                elif e["k"] == "ret":
+                    active.discard(e["c"])
+                elif e["k"] == "down":
+                    nd += len(active)
+    ev.cov["calls_in_progress_at_transport_loss"] = nd
+    if not nd:
+        raise env.MachineryError("no call was in progress when the transport was lost")
     ev.cov["evaluations"] = sum(len(l["ev"]) for l in logs)
     ev.cov["distinct_nontrivial"] = len(nontriv)
     ev.cov["rule"] = "scenarios with >= 2 concurrent callers, distinct by their call/send/return sequence"
